@@ -292,3 +292,127 @@ def rule_forall_per_value(db: ProgramDB) -> List[Instance]:
                         "a binding is accumulated only when the condition is true for it" if skips_false else
                         "bindings for which the condition is false are accumulated as if it held", line=a.lineno))
     return out
+
+
+def rule_forall_key(db: ProgramDB) -> List[Instance]:
+    """Duplicate suppression keys rows on the variables an ancestor requires.  ForAll intersects the condition's rows
+    *per universal value*, so the key it requires from its condition must contain the universal variable(s); otherwise a
+    row (x) seen for one universal value is suppressed as a duplicate for the next one and drops out of the intersection."""
+    out = []
+    fa = db.cls("ForAll")
+    m = fa.lookup("_required_variables_from_child_")
+    if m is None:
+        raise AnalysisError("ForAll has no _required_variables_from_child_")
+    # follow super() calls along the MRO collecting `if child is self.<side>: required.update(self.<other>._unique_variables_)`
+    adds: Set[Tuple[str, str]] = set()
+    seen = set()
+
+    def scan(fn):
+        if fn is None or fn.qualname in seen:
+            return
+        seen.add(fn.qualname)
+        for n in own_nodes(fn.node):
+            if isinstance(n, ast.If):
+                t = unparse(n.test)
+                for side in ("left", "right", "condition", "variable"):
+                    if f"child is self.{side}" in t or f"self.{side} is child" in t:
+                        for c in ast.walk(ast.Module(body=n.body, type_ignores=[])):
+                            if isinstance(c, ast.Call) and call_attr(c) in ("update", "add", "union"):
+                                for a in c.args:
+                                    for x in ast.walk(a):
+                                        if isinstance(x, ast.Attribute) and x.attr == "_unique_variables_" and \
+                                                isinstance(x.value, ast.Attribute) and isinstance(x.value.value, ast.Name) \
+                                                and x.value.value.id == "self":
+                                            adds.add((side, x.value.attr))
+            if isinstance(n, ast.Call) and call_attr(n) == "_required_variables_from_child_" and isinstance(n.func.value, ast.Call) \
+                    and isinstance(n.func.value.func, ast.Name) and n.func.value.func.id == "super":
+                idx = [k.qualname for k in fn.cls.mro].index(fn.cls.qualname) if fn.cls else 0
+                for k in fa.mro:
+                    if k.qualname == fn.cls.qualname:
+                        continue
+                for k in fa.mro[[c.qualname for c in fa.mro].index(fn.cls.qualname) + 1:]:
+                    if "_required_variables_from_child_" in k.methods:
+                        scan(k.methods["_required_variables_from_child_"])
+                        break
+    scan(m)
+    norm = {"condition": "right", "variable": "left"}
+    adds_n = {(norm.get(a, a), norm.get(b, b)) for a, b in adds}
+    ok = ("right", "left") in adds_n
+    out.append(inst("FORALL-KEY", HOLDS if ok else VIOLATION, m, "ForAll._required_variables_from_child_[condition keyed by universal variable]",
+                    "the rows required from the condition are keyed by the universal variable as well" if ok else
+                    f"ForAll requires from its condition only what its ancestors require (effective implementation "
+                    f"{m.short} adds {sorted(adds_n)}): the universal variable is not part of the duplicate-suppression key, "
+                    f"so when the condition suppresses duplicates itself (a disjunction) a row seen for one universal value "
+                    f"is dropped for the next and falls out of the intersection"))
+    return out
+
+
+def rule_forall_nonliteral(db: ProgramDB) -> List[Instance]:
+    """The variables ForAll projects the condition's rows onto exclude literals (a literal is bound or not depending on
+    the branch / cache that produced the row).  Cross-check with the sibling computations of key-variable sets."""
+    out = []
+    fa = db.cls("ForAll")
+    m = fa.lookup("condition_unique_variable_ids")
+    if m is None:
+        raise AnalysisError("ForAll.condition_unique_variable_ids not found")
+    src_nodes = [n for n in own_nodes(m.node) if isinstance(n, ast.Call) and dotted(n.func) == "isinstance"]
+    excl = any(len(c.args) == 2 and unparse(c.args[1]).endswith("Literal") and isinstance(c.args[0], ast.Attribute)
+               and c.args[0].attr == "value" for c in src_nodes)
+    # negated? `if not isinstance(v.value, Literal)` or filter(lambda v: not isinstance(...))
+    neg = any(isinstance(n, ast.UnaryOp) and isinstance(n.op, ast.Not) and isinstance(n.operand, ast.Call)
+              and dotted(n.operand.func) == "isinstance" for n in own_nodes(m.node))
+    ok = excl and neg
+    out.append(inst("FORALL-NONLITERAL", HOLDS if ok else VIOLATION, m, "ForAll.condition_unique_variable_ids[literals excluded]",
+                    "the rows of different universal values are compared on the non-universal, non-literal variables only" if ok else
+                    "literal pseudo-variables are part of the key the rows of different universal values are compared on: a "
+                    "row produced by another branch of the condition, or replayed from a cache, does not carry them and "
+                    "falls out of the intersection"))
+    # siblings (informational cross-check)
+    for q in ("symbolic:BinaryOperator.__post_init__", "symbolic:LogicalOperator.__post_init__", "symbolic:_optimize_or",
+              "conclusion_selector:ConclusionSelector.update_conclusion"):
+        f = db.fn(q, required=False)
+        if f is None:
+            continue
+        calls = [n for n in own_nodes(f.node) if isinstance(n, ast.Call) and dotted(n.func) == "isinstance"
+                 and len(n.args) == 2 and unparse(n.args[1]).endswith("Literal")]
+        for c in calls:
+            good = isinstance(c.args[0], ast.Attribute) and c.args[0].attr == "value"
+            out.append(inst("FORALL-NONLITERAL", INFO, f, f"{f.short}[{unparse(c)}]",
+                            "sibling key computation excludes literals" if good else
+                            f"deviant sibling: `{unparse(c)}` tests the HashedValue wrapper, not the wrapped variable, so it "
+                            f"never excludes a literal (only makes this cache less effective; no behavioural consequence found)",
+                            line=c.lineno))
+    return out
+
+
+def rule_forall_total_rows(db: ProgramDB) -> List[Instance]:
+    """Rows of different universal values can only be intersected if each binds *all* the non-universal variables: a
+    branch of the condition that holds without mentioning a variable leaves it unbound (= holds for all its values)."""
+    out = []
+    m, cfg, acc, outer, inner, cur, derived = forall_model(db)
+    # what is appended to `current`: must derive from a row completed over the unbound variables
+    apps = [c for c in ast.walk(inner.ast) if isinstance(c, ast.Call) and call_attr(c) in ("append", "add")
+            and isinstance(c.func.value, ast.Name) and c.func.value.id == cur]
+    fa = db.cls("ForAll")
+    completing = None
+    for loop in [n for n in ast.walk(inner.ast) if isinstance(n, ast.For) and n is not inner.ast]:
+        it = loop.iter
+        if isinstance(it, ast.Call) and isinstance(it.func, ast.Attribute) and isinstance(it.func.value, ast.Name) \
+                and it.func.value.id == "self":
+            h = fa.lookup(it.func.attr)
+            if h is not None and _is_completion_helper(h) and any(x is a for a in apps for x in ast.walk(loop)):
+                completing = h
+    ok = completing is not None
+    out.append(inst("FORALL-TOTAL-ROWS", HOLDS if ok else VIOLATION, m, "ForAll._evaluate__[rows completed before intersection]",
+                    f"each row of the condition is completed by `{completing.name}` (evaluates the non-universal variables the "
+                    f"row leaves unbound) before it is accumulated" if ok else
+                    "rows are accumulated as the condition yields them: a branch that holds without mentioning one of the "
+                    "other variables yields a row that does not bind it, and intersecting it with rows that do bind it gives "
+                    "nothing (for_all(u, or_(u.m > 1, x.m == 2)) returns [] as soon as some u has m > 1)"))
+    return out
+
+
+def _is_completion_helper(h: FuncInfo) -> bool:
+    has_not_in = any(isinstance(n, ast.Compare) and any(isinstance(o, ast.NotIn) for o in n.ops) for n in own_nodes(h.node))
+    evaluates = any(isinstance(n, ast.Call) and is_eval_method_name(call_attr(n)) for n in own_nodes(h.node))
+    return h.is_generator and has_not_in and evaluates
